@@ -21,7 +21,7 @@ ASSUMPTIONS = [
     "well-formedness as in DESIGN.md Appendix B (documented arity, case ops after a switch header, context op followed by a plain op, routines end in a flow-ending op or Jump, no Jump-only cycle)",
     "exceeding 5e6 function entries inside explorerscript counts as 'does not answer' (finite observation, not a termination proof)",
 ]
-CASES = {"quick": 3200, "thorough": 80000}
+CASES = {"quick": 6400, "thorough": 80000}
 
 
 def strategy(tier):
